@@ -607,6 +607,26 @@ func (g *genCtx) clients(spec *RunSpec, profile string) [][]ClientOp {
 		pi := r.Intn(len(spec.Plans))
 		cl = append(cl, []ClientOp{{Op: "sleep", Ms: Pick(r, []int64{500, 2500})}, {Op: "plan", Plan: pi}, {Op: "sleep", Ms: 3300}, {Op: "plan", Plan: pi}, {Op: "wait", Plan: pi}})
 	}
+	// calls issued right at the end of a plan: a client that waits for the engine to arrive at
+	// the plan's first terminal write and then calls Wait / Start / Plan
+	pAtEnd := 0.12
+	if profile == "C04" || profile == "C08" || profile == "C12" {
+		pAtEnd = 0.4
+	}
+	if r.Bool(pAtEnd) {
+		pi := r.Intn(len(spec.Plans))
+		switch r.Intn(4) {
+		case 0, 1:
+			cl = append(cl, []ClientOp{{Op: "await-final", Plan: pi}, {Op: "wait", Plan: pi}})
+		case 2:
+			cl = append(cl, []ClientOp{{Op: "await-final", Plan: pi}, {Op: "start", Plan: pi}, {Op: "wait", Plan: pi}})
+		default:
+			cl = append(cl, []ClientOp{{Op: "await-final", Plan: pi}, {Op: "plan", Plan: pi}, {Op: "wait", Plan: pi}})
+		}
+		if r.Bool(0.3) {
+			cl = append(cl, []ClientOp{{Op: "await-final", Plan: pi}, {Op: "wait", Plan: pi}})
+		}
+	}
 	if profile != "C12" {
 		return cl
 	}
